@@ -62,6 +62,9 @@ func (r *BatchedPrivateTokenRequest) Marshal() []byte {
 }
 
 func (r *BatchedPrivateTokenRequest) Unmarshal(data []byte) bool {
+	// Drop the cached encoding of any value the object held before.
+	r.raw = nil
+
 	s := cryptobyte.String(data)
 
 	var tokenType uint16
